@@ -161,6 +161,8 @@ class Ctx:
         self.floor_lemmas = False
         self.floor_fork = None
         self.floor_list = []
+        self.concretise = False   # hunt mode: float() of a symbolic value picks one feasible value instead of giving up
+        self.concretised = []
         self.inputs = {}  # name -> z3 const (harness inputs, for model extraction)
         self.free_choices = {}  # name -> concrete value chosen by an unconstrained fork
         self.notes = []
@@ -247,6 +249,38 @@ class Ctx:
                 self.pending.append(self.decisions + [("f", other)])
         self.decisions.append(("f", k))
         return k
+
+    def concretise_value(self, e):
+        """hunt mode only: bind the real term e to one concrete double that the path condition allows (classic concolic
+        concretisation).  The path then covers that value only, so nothing is *proved* on it; violations found on it
+        are ordinary counterexamples (replayed like every other)."""
+        from .solve import solve
+        i = len(self.decisions)
+        if i < len(self.preset):
+            d = self.preset[i]
+            assert d[0] == "v"
+            fr = d[1]
+        else:
+            fr = None
+            st, mv = solve(self.hyps(), timeout_ms=self.branch_timeout_ms * 3, want_model=True, use_axioms=False)
+            cands = []
+            if st == "sat" and mv is not None:
+                try:
+                    v = mv.value(e)
+                    cands += [Fraction(float(v)), Fraction(round(float(v), 3)).limit_denominator(1000)]
+                except Exception:  # noqa: BLE001
+                    pass
+            cands += [Fraction(0), Fraction(1), Fraction(-1), Fraction(1, 2), Fraction(2)]
+            for c in cands:
+                if self.feasible(e == z3.RealVal(str(c))):
+                    fr = c
+                    break
+            if fr is None:
+                raise PathAbort("unsupported", "no concrete value found for a symbolic float()")
+        self.decisions.append(("v", fr))
+        self.pc.append(e == z3.RealVal(str(fr)))
+        self.concretised.append(str(fr))
+        return float(fr)
 
     def choose_trunc(self, x):
         """fork over k = trunc(x) for a real term x"""
@@ -792,6 +826,11 @@ class SymReal:
 
     # ---- conversions
     def __float__(s):
+        c = Ctx.cur
+        if z3.is_rational_value(s.e):
+            return float(Fraction(s.e.numerator_as_long(), s.e.denominator_as_long()))
+        if c is not None and c.concretise:
+            return c.concretise_value(s.e)
         raise Realification("float() of a symbolic value")
 
     def __int__(s):
